@@ -132,12 +132,19 @@ def replaceChar (c : Char) (r : Str) (s : Str) : Str :=
   s.flatMap (fun x => if x = c then r else [x])
 
 /-- `s.replace(a+b, r)` for a two-character pattern and a one-character replacement
-    (left to right, non-overlapping — Python's `str.replace`). -/
-def replace2 (a b r : Char) : Str → Str
-  | x :: y :: rest =>
-    if x = a ∧ y = b then r :: replace2 a b r rest else x :: replace2 a b r (y :: rest)
-  | xs => xs
-termination_by s => s.length
+    (left to right, non-overlapping — Python's `str.replace`), as a scanner whose flag
+    says "the previous character was `a` and has not been emitted yet". -/
+def replace2Aux (a b r : Char) : Bool → Str → Str
+  | false, [] => []
+  | true, [] => [a]
+  | false, x :: rest =>
+    if x = a then replace2Aux a b r true rest else x :: replace2Aux a b r false rest
+  | true, x :: rest =>
+    if x = b then r :: replace2Aux a b r false rest
+    else if x = a then a :: replace2Aux a b r true rest
+    else a :: x :: replace2Aux a b r false rest
+
+def replace2 (a b r : Char) (s : Str) : Str := replace2Aux a b r false s
 
 /-- `str.isspace` for one character (the code points Python strips with `lstrip()`). -/
 def isPyBlank (c : Char) : Bool :=
